@@ -30,7 +30,7 @@ From Coq Require Import Reals Lra Lia ZArith.
 From Coq Require Floats.
 From Flocq Require Core.Core.
 From OV Require Base.RoundModel Inst.FloatInst Model.Complex Proofs.ComplexRound Proofs.RoundFlx
-  Proofs.JacExactGen Proofs.JacExactFloat Proofs.JacExactFloatC Proofs.JacExactRound Proofs.JacExactRoundEx Proofs.JacExactRoundC
+  Proofs.JacExactGen Proofs.JacExactFloat Proofs.JacExactFloatGen Proofs.JacExactFloatC Proofs.JacExactRound Proofs.JacExactRoundEx Proofs.JacExactRoundC
   Proofs.JacExactFloatRound Proofs.JacExactFloatRoundC.
 Local Close Scope R_scope.
 Local Open Scope nat_scope.
@@ -218,6 +218,114 @@ Example jacobian_affine_float_negzero :
     PrimFloat.get_sign (nth 0 st (@zero FloatInst.AF)) = false /\ PrimFloat.get_sign (nth 1 (buf J) (@one FloatInst.AF)) = false /\
     PrimFloat.get_sign PrimFloat.neg_zero = true.
 Proof. exact JacExactFloat.exj_negzero. Qed.
+
+(* the exactness at binary64 does not depend on HOW the closure evaluates the map, only on its n + 1 values being held exactly:
+   ANY total closure F with  F(x)_i = N0 i 2^E  and  F(x + delta e_j)_i = (N0 i + Mz i j Dd) 2^E  (exactly; the latter not -0),
+   x_k = Xz k 2^eX, delta = Dd 2^eX:  the matrix returned is the float matrix M with M_ij = Mz i j 2^(E - eX), bit for bit *)
+Theorem jacobian_exact_float_any_closure : forall (F : list PrimFloat.float -> res (list PrimFloat.float)) (M : matrix FloatInst.AF)
+    (x : list PrimFloat.float) (d : PrimFloat.float) (Mz : nat -> nat -> Z) (N0 Xz : nat -> Z) (Dd E eX : Z),
+  wf M -> length x = cols M ->
+  (forall y, length y = length x -> exists v, F y = Ok v /\ length v = rows M) ->
+  (forall i j, (i < rows M)%nat -> (j < cols M)%nat ->
+     ComplexRound.ffinite (ment (NReal FloatInst.AF) M i j) /\ ComplexRound.FR (ment (NReal FloatInst.AF) M i j) = (IZR (Mz i j) * Flocq.Core.Raux.bpow Flocq.Core.Zaux.radix2 (E - eX))%R /\
+     ment (NReal FloatInst.AF) M i j <> PrimFloat.neg_zero) ->
+  (forall j, (j < cols M)%nat ->
+     ComplexRound.ffinite (nth j x (@zero FloatInst.AF)) /\ ComplexRound.FR (nth j x (@zero FloatInst.AF)) = (IZR (Xz j) * Flocq.Core.Raux.bpow Flocq.Core.Zaux.radix2 eX)%R /\ nth j x (@zero FloatInst.AF) <> PrimFloat.neg_zero) ->
+  ComplexRound.ffinite d -> ComplexRound.FR d = (IZR Dd * Flocq.Core.Raux.bpow Flocq.Core.Zaux.radix2 eX)%R -> (0 < Dd)%Z ->
+  (-1074 <= eX <= 971)%Z -> (-1074 <= E <= 971)%Z -> (-1074 <= E - eX <= 971)%Z ->
+  (forall j, (j < cols M)%nat -> (Z.abs (Xz j) + Dd < 2 ^ 53)%Z) ->
+  (forall i j, (i < rows M)%nat -> (j < cols M)%nat -> (Z.abs (Mz i j * Dd) < 2 ^ 53)%Z) ->
+  (forall v i, F x = Ok v -> (i < rows M)%nat ->
+     ComplexRound.ffinite (nth i v (@zero FloatInst.AF)) /\ ComplexRound.FR (nth i v (@zero FloatInst.AF)) = (IZR (N0 i) * Flocq.Core.Raux.bpow Flocq.Core.Zaux.radix2 E)%R) ->
+  (forall v i j, (j < cols M)%nat -> F (perturbed (NReal FloatInst.AF) x d j) = Ok v -> (i < rows M)%nat ->
+     ComplexRound.ffinite (nth i v (@zero FloatInst.AF)) /\ ComplexRound.FR (nth i v (@zero FloatInst.AF)) = (IZR (N0 i + Mz i j * Dd) * Flocq.Core.Raux.bpow Flocq.Core.Zaux.radix2 E)%R /\
+     nth i v (@zero FloatInst.AF) <> PrimFloat.neg_zero) ->
+  jacobian_tr (NReal FloatInst.AF) F x d = Ok (x, M, x :: map (perturbed (NReal FloatInst.AF) x d) (seq 0 (length x))) /\
+  jacobian (NReal FloatInst.AF) F x d = Ok (M, x :: map (perturbed (NReal FloatInst.AF) x d) (seq 0 (length x))).
+Proof. exact JacExactFloatGen.jacobian_exact_float_gen_thm. Qed.
+Check jacobian_exact_float_any_closure : forall (F : list PrimFloat.float -> res (list PrimFloat.float)) (M : matrix FloatInst.AF)
+    (x : list PrimFloat.float) (d : PrimFloat.float) (Mz : nat -> nat -> Z) (N0 Xz : nat -> Z) (Dd E eX : Z),
+  wf M -> length x = cols M ->
+  (forall y, length y = length x -> exists v, F y = Ok v /\ length v = rows M) ->
+  (forall i j, (i < rows M)%nat -> (j < cols M)%nat ->
+     ComplexRound.ffinite (ment (NReal FloatInst.AF) M i j) /\ ComplexRound.FR (ment (NReal FloatInst.AF) M i j) = (IZR (Mz i j) * Flocq.Core.Raux.bpow Flocq.Core.Zaux.radix2 (E - eX))%R /\
+     ment (NReal FloatInst.AF) M i j <> PrimFloat.neg_zero) ->
+  (forall j, (j < cols M)%nat ->
+     ComplexRound.ffinite (nth j x (@zero FloatInst.AF)) /\ ComplexRound.FR (nth j x (@zero FloatInst.AF)) = (IZR (Xz j) * Flocq.Core.Raux.bpow Flocq.Core.Zaux.radix2 eX)%R /\ nth j x (@zero FloatInst.AF) <> PrimFloat.neg_zero) ->
+  ComplexRound.ffinite d -> ComplexRound.FR d = (IZR Dd * Flocq.Core.Raux.bpow Flocq.Core.Zaux.radix2 eX)%R -> (0 < Dd)%Z ->
+  (-1074 <= eX <= 971)%Z -> (-1074 <= E <= 971)%Z -> (-1074 <= E - eX <= 971)%Z ->
+  (forall j, (j < cols M)%nat -> (Z.abs (Xz j) + Dd < 2 ^ 53)%Z) ->
+  (forall i j, (i < rows M)%nat -> (j < cols M)%nat -> (Z.abs (Mz i j * Dd) < 2 ^ 53)%Z) ->
+  (forall v i, F x = Ok v -> (i < rows M)%nat ->
+     ComplexRound.ffinite (nth i v (@zero FloatInst.AF)) /\ ComplexRound.FR (nth i v (@zero FloatInst.AF)) = (IZR (N0 i) * Flocq.Core.Raux.bpow Flocq.Core.Zaux.radix2 E)%R) ->
+  (forall v i j, (j < cols M)%nat -> F (perturbed (NReal FloatInst.AF) x d j) = Ok v -> (i < rows M)%nat ->
+     ComplexRound.ffinite (nth i v (@zero FloatInst.AF)) /\ ComplexRound.FR (nth i v (@zero FloatInst.AF)) = (IZR (N0 i + Mz i j * Dd) * Flocq.Core.Raux.bpow Flocq.Core.Zaux.radix2 E)%R /\
+     nth i v (@zero FloatInst.AF) <> PrimFloat.neg_zero) ->
+  jacobian_tr (NReal FloatInst.AF) F x d = Ok (x, M, x :: map (perturbed (NReal FloatInst.AF) x d) (seq 0 (length x))) /\
+  jacobian (NReal FloatInst.AF) F x d = Ok (M, x :: map (perturbed (NReal FloatInst.AF) x d) (seq 0 (length x))).
+Print Assumptions jacobian_exact_float_any_closure.
+(* non-vacuity: jacobian_affine_cfirst_exact_float below is an instance (its proof discharges every hypothesis above for the closure affc) *)
+
+(* the evaluation order of the check's own affine test closures (driver/newtonlib.py affine_exprs):
+     affc M c p, row i = ((c_i + M_i0 p_0) + M_i1 p_1) + ...      (sum_from acc n f = acc + f 0 + ... + f (n-1), left to right)
+   same data, same bounds as jacobian_affine_exact_float, c_i not -0: the RULE of driver/c18.py ("delta = 2^-k where every operation is
+   exact") is this theorem -- M on the grid 1/8 in [-4,4], x on the grid 1/16 in [-4,4], delta = 2^-k, k = 4..26, n <= 6 satisfy it *)
+Theorem jacobian_affine_cfirst_exact_float : forall (M : matrix FloatInst.AF) (c x : list PrimFloat.float) (d : PrimFloat.float)
+    (Mz : nat -> nat -> Z) (Cz Xz : nat -> Z) (Dd eM eX : Z),
+  wf M -> length x = cols M ->
+  (forall i j, (i < rows M)%nat -> (j < cols M)%nat ->
+     ComplexRound.ffinite (ment (NReal FloatInst.AF) M i j) /\
+     ComplexRound.FR (ment (NReal FloatInst.AF) M i j) = (IZR (Mz i j) * Flocq.Core.Raux.bpow Flocq.Core.Zaux.radix2 eM)%R /\
+     ment (NReal FloatInst.AF) M i j <> PrimFloat.neg_zero) ->
+  (forall j, (j < cols M)%nat ->
+     ComplexRound.ffinite (nth j x (@zero FloatInst.AF)) /\
+     ComplexRound.FR (nth j x (@zero FloatInst.AF)) = (IZR (Xz j) * Flocq.Core.Raux.bpow Flocq.Core.Zaux.radix2 eX)%R /\
+     nth j x (@zero FloatInst.AF) <> PrimFloat.neg_zero) ->
+  (forall i, (i < rows M)%nat ->
+     ComplexRound.ffinite (nth i c (@zero FloatInst.AF)) /\
+     ComplexRound.FR (nth i c (@zero FloatInst.AF)) = (IZR (Cz i) * Flocq.Core.Raux.bpow Flocq.Core.Zaux.radix2 (eM + eX))%R /\
+     nth i c (@zero FloatInst.AF) <> PrimFloat.neg_zero) ->
+  ComplexRound.ffinite d -> ComplexRound.FR d = (IZR Dd * Flocq.Core.Raux.bpow Flocq.Core.Zaux.radix2 eX)%R -> (0 < Dd)%Z ->
+  (-1074 <= eX <= 971)%Z -> (-1074 <= eM <= 971)%Z -> (-1074 <= eM + eX <= 971)%Z ->
+  (forall j, (j < cols M)%nat -> (Z.abs (Xz j) + Dd < 2 ^ 53)%Z) ->
+  (forall i, (i < rows M)%nat ->
+     (JacExactFloat.zsumn (cols M) (fun k => Z.abs (Mz i k) * (Z.abs (Xz k) + Dd)) + Z.abs (Cz i) < 2 ^ 53)%Z) ->
+  jacobian_tr (NReal FloatInst.AF) (fun p => Ok (JacExactFloatGen.affc (NReal FloatInst.AF) M c p)) x d =
+    Ok (x, M, x :: map (perturbed (NReal FloatInst.AF) x d) (seq 0 (length x))) /\
+  jacobian (NReal FloatInst.AF) (fun p => Ok (JacExactFloatGen.affc (NReal FloatInst.AF) M c p)) x d =
+    Ok (M, x :: map (perturbed (NReal FloatInst.AF) x d) (seq 0 (length x))).
+Proof. exact JacExactFloatGen.jacobian_affine_cfirst_exact_float_thm. Qed.
+Check jacobian_affine_cfirst_exact_float : forall (M : matrix FloatInst.AF) (c x : list PrimFloat.float) (d : PrimFloat.float)
+    (Mz : nat -> nat -> Z) (Cz Xz : nat -> Z) (Dd eM eX : Z),
+  wf M -> length x = cols M ->
+  (forall i j, (i < rows M)%nat -> (j < cols M)%nat ->
+     ComplexRound.ffinite (ment (NReal FloatInst.AF) M i j) /\
+     ComplexRound.FR (ment (NReal FloatInst.AF) M i j) = (IZR (Mz i j) * Flocq.Core.Raux.bpow Flocq.Core.Zaux.radix2 eM)%R /\
+     ment (NReal FloatInst.AF) M i j <> PrimFloat.neg_zero) ->
+  (forall j, (j < cols M)%nat ->
+     ComplexRound.ffinite (nth j x (@zero FloatInst.AF)) /\
+     ComplexRound.FR (nth j x (@zero FloatInst.AF)) = (IZR (Xz j) * Flocq.Core.Raux.bpow Flocq.Core.Zaux.radix2 eX)%R /\
+     nth j x (@zero FloatInst.AF) <> PrimFloat.neg_zero) ->
+  (forall i, (i < rows M)%nat ->
+     ComplexRound.ffinite (nth i c (@zero FloatInst.AF)) /\
+     ComplexRound.FR (nth i c (@zero FloatInst.AF)) = (IZR (Cz i) * Flocq.Core.Raux.bpow Flocq.Core.Zaux.radix2 (eM + eX))%R /\
+     nth i c (@zero FloatInst.AF) <> PrimFloat.neg_zero) ->
+  ComplexRound.ffinite d -> ComplexRound.FR d = (IZR Dd * Flocq.Core.Raux.bpow Flocq.Core.Zaux.radix2 eX)%R -> (0 < Dd)%Z ->
+  (-1074 <= eX <= 971)%Z -> (-1074 <= eM <= 971)%Z -> (-1074 <= eM + eX <= 971)%Z ->
+  (forall j, (j < cols M)%nat -> (Z.abs (Xz j) + Dd < 2 ^ 53)%Z) ->
+  (forall i, (i < rows M)%nat ->
+     (JacExactFloat.zsumn (cols M) (fun k => Z.abs (Mz i k) * (Z.abs (Xz k) + Dd)) + Z.abs (Cz i) < 2 ^ 53)%Z) ->
+  jacobian_tr (NReal FloatInst.AF) (fun p => Ok (JacExactFloatGen.affc (NReal FloatInst.AF) M c p)) x d =
+    Ok (x, M, x :: map (perturbed (NReal FloatInst.AF) x d) (seq 0 (length x))) /\
+  jacobian (NReal FloatInst.AF) (fun p => Ok (JacExactFloatGen.affc (NReal FloatInst.AF) M c p)) x d =
+    Ok (M, x :: map (perturbed (NReal FloatInst.AF) x d) (seq 0 (length x))).
+Print Assumptions jacobian_affine_cfirst_exact_float.
+Example jacobian_affine_cfirst_exact_float_nonvacuous :
+  (forall i, (i < rows JacExactFloat.exj_M)%nat -> nth i JacExactFloat.exj_c (@zero FloatInst.AF) <> PrimFloat.neg_zero) /\
+  (* the other hypotheses: jacobian_affine_exact_float_nonvacuous (same data); the run, by evaluation: *)
+  jacobian (NReal FloatInst.AF) (fun p => Ok (JacExactFloatGen.affc (NReal FloatInst.AF) JacExactFloat.exj_M JacExactFloat.exj_c p))
+           JacExactFloat.exj_x JacExactFloat.exj_d = Ok (JacExactFloat.exj_M, JacExactFloat.exj_evs).
+Proof. split; [exact JacExactFloatGen.exj_c_nz|exact JacExactFloatGen.exj_value_cfirst]. Qed.
 
 (* C18 "exact on dyadic data", Matrix::<Cmplx>::jacobian_cmplx at binary64 (NCplx SAF, step emb d = Cmplx::new(delta, 0.0): REAL, added to
    the real part; the quotient is the complex division by (delta, 0)).  GAUSSIAN-DYADIC data:
